@@ -352,6 +352,10 @@ T == octet.
 *******************************************************************************
 */
 
+#ifdef BEE2_VERIF_W32
+	#undef U128_SUPPORT
+#endif
+
 #if defined(U128_SUPPORT)
 	#define B_PER_W 64
 	typedef u64 word;
